@@ -130,12 +130,25 @@ CLAIMS.update({
          "stays valid under every interleaving of any number of WHOLE WRITERS (mapped or plain, keyed or by address, both "
          "flavours) and quiet operations (inserts, removals, remove_hash, remove_fully, clear, link commits, all reads) - "
          "a rely/guarantee proof over private temp files (conc_content_valid, Lemmas/Concurrent); every call stays inside "
-         "the cache. Tie: 6-12 real processes (sync+async API, both runtimes) hammering one cache with read/record/content "
-         "monitors; strace check that an index insert is ONE write(2) on an O_APPEND descriptor (also multi-MiB).",
+         "the cache. RESULTS (Props/C07x, Lemmas/Linearize): ANY number of concurrent index operations - insert, delete, "
+         "find of any keys, any mix - from a healthy index: after every schedule there is ONE duplicate-free serial history "
+         "of the abstract map key -> entry containing exactly the finished processes, each with exactly the answer it "
+         "returned, ending in the abstraction of the current state (index_ops_linearizable), and running the real programs "
+         "sequentially in that order returns the same answers and the same lookups afterwards (index_ops_serializable); "
+         "one inserter / remover and one lookup of any key, with NO hypothesis on the bucket: the lookup answers as alone "
+         "before or alone after, and both results plus the final filesystem equal one of the two serial runs "
+         "(lookup_linearizable_insert/delete, insert_find_serial); a lookup among any processes answers from a snapshot "
+         "of whole records that is a prefix of the bucket's history (lookup_snapshot). Tie: 6-12 real processes (sync+async API, both runtimes) hammering one cache with read/record/content "
+         "monitors; strace check that an index insert is ONE write(2) on an O_APPEND descriptor (also multi-MiB); OBSERVER SWEEP: "
+         "a writer / remover stopped on entry to each of its mutating system calls, every observer (lookup, read, list, "
+         "exists, read_hash; sync+async) must answer as before or as after the operation.",
     note=TB + "the interleaving semantics takes one filesystem call as the atomic step and has no faults inside an "
          "interleaving (crashes/faults of a single writer: C03/C13); kernel atomicity of write(O_APPEND) and rename is "
          "assumed; temp names are modelled as a monotone counter (tempfile's random names: fresh by retry-on-EEXIST). "
-         "Serializability is proved per bucket (append order) and per content address, not as one global order.",
+         "Linearizability of RESULTS is proved for the index operations (insert / delete / find: one global order); listings "
+         "and the two-step `read` (index, then content) are covered by the per-bucket whole-record snapshot and the content "
+         "validity theorems only - four processes (two listers, two inserters into different buckets) can produce listings "
+         "that fit no serial order, which is outside C07's quantifier (2-3 operations).",
     technique="Lean 4 proof (invariants over all interleavings) + multi-process stress + syscall skeleton"),
  "C08": dict(
     text="Theorems (Props/C08): the decision logic of commit stated outright (integrity mismatch => integrity error, "
